@@ -49,6 +49,12 @@ func runConn(sc *ConnScenario) *RetryResult {
 		plan.ConnAcks = []netsim.ConnAckPlan{{Silent: true}}
 	}
 	plan.Writes = append(plan.Writes, sc.Faults...)
+	for _, st := range sc.Steps {
+		if st == "subbad" || st == "subbad!" {
+			// the broker model does not answer that SUBSCRIBE by itself: the step sends a SUBACK with a wrong number of codes
+			plan.Writes = append(plan.Writes, netsim.FaultRule{P: "SUBSCRIBE", N: 1, O: "dropAck"})
+		}
+	}
 	w := netsim.NewWorld(plan)
 	w.AutoRelease = true
 	rec := w.Rec
@@ -165,6 +171,31 @@ func runConn(sc *ConnScenario) *RetryResult {
 			w.Send(t, netsim.Publish("in", netsim.PayloadOf(1), 1, 11, false, false))
 		case "in2":
 			w.Send(t, netsim.Publish("in", netsim.PayloadOf(2), 2, 12, false, false))
+		case "subbad":
+			// a protocol violation by the broker that the client detects itself: Subscribe with two filters is answered
+			// by a SUBACK carrying one return code; the client ends the connection (abnormally: Closed with an error)
+			sret := make(chan error, 1)
+			go func() {
+				sctx, scancel := context.WithTimeout(ctx, 2*time.Second)
+				defer scancel()
+				_, err := cli.Subscribe(sctx, mqtt.Subscription{Topic: "a", QoS: mqtt.QoS1}, mqtt.Subscription{Topic: "b", QoS: mqtt.QoS1})
+				sret <- err
+			}()
+			id := 0
+			for dl := time.Now().Add(2 * time.Second); time.Now().Before(dl) && id == 0; time.Sleep(200 * time.Microsecond) {
+				for _, e := range rec.Snapshot() {
+					if e["e"] == "Write" && e["p"] == "SUBSCRIBE" {
+						id = e["id"].(int)
+					}
+				}
+			}
+			w.Send(t, netsim.SubAck(id, []byte{1}))
+			select {
+			case err := <-sret:
+				rec.Emit(netsim.Event{"e": "Ret", "c": 2, "kind": "Subscribe", "res": netsim.ErrClass(err)})
+			case <-time.After(3 * time.Second):
+				info["subscribeStuck"] = true
+			}
 		case "badflags":
 			t.SendRaw([]byte{0x41, 0x02, 0x00, 0x01}, "PUBACK-badflags")
 		case "disconnect":
